@@ -541,7 +541,67 @@ def _worker(job):
         meta["jax_version"] = jax.__version__
         meta["key_impls"] = key_impls()
         meta["sctypeDict_distinct"] = len({t for t in np.sctypeDict.values()})
-    return dict(part=job["part"], rows=rows, unproducible=unprod, meta=meta)
+    seq = sequence_part(exported) if tf is None else ([], 0)
+    return dict(part=job["part"], rows=rows, unproducible=unprod, meta=meta, seq_viols=seq[0], seq_n=seq[1])
+
+
+SEQ_DTYPES = ["bool_", "int8", "uint8", "int32", "int64", "longlong", "float16", "float32", "float64", "complex64", "bfloat16"]
+
+
+def sequence_part(exported):
+    """The verdict for a dtype must not depend on what was checked before in the same context:
+    inside one jaxtyped context / one decorated call, every ordered pair of TEMPORARY arrays
+    (dtype d1, then dtype d2 - the second one may live at the address the first one had) is checked
+    against one shared annotation object per category, NumPy and duck carriers; every verdict is
+    compared with the verdict of the same dtype checked on its own outside any context (which the
+    main product compares with the documented hierarchy)."""
+    import ml_dtypes
+    import numpy as np
+
+    import jaxtyping
+    from jaxtyping import jaxtyped
+    from ..adapter import Duck
+
+    def npd(n):
+        return getattr(np, n) if hasattr(np, n) else getattr(ml_dtypes, n)
+
+    def dname(n):
+        return np.dtype(npd(n)).type.__name__
+
+    viols, n = [], 0
+    for cname in exported:
+        cat = getattr(jaxtyping, cname)
+        ann_np, ann_duck = cat[np.ndarray, "..."], cat[Duck, "..."]
+        alone = {d: (isinstance(np.zeros(2, npd(d)), cat[np.ndarray, "..."]), isinstance(Duck((2,), dname(d)), cat[Duck, "..."])) for d in SEQ_DTYPES}
+        for d1, d2 in itertools.permutations(SEQ_DTYPES, 2):
+            for where in ("context", "call"):
+
+                def body():
+                    return (
+                        isinstance(np.zeros(2, npd(d1)), ann_np),
+                        isinstance(np.zeros(2, npd(d2)), ann_np),
+                        isinstance(Duck((2,), dname(d1)), ann_duck),
+                        isinstance(Duck((2,), dname(d2)), ann_duck),
+                    )
+
+                if where == "context":
+                    with jaxtyped("context"):
+                        got = body()
+                else:
+                    got = jaxtyped(body, typechecker=None)()
+                n += 4
+                want = (alone[d1][0], alone[d2][0], alone[d1][1], alone[d2][1])
+                if got != want:
+                    i = next(i for i in range(4) if got[i] != want[i])
+                    viols.append(
+                        dict(
+                            key=f"C03:sequence:{cname}:{d1}-then-{d2}",
+                            what=f"inside one jaxtyped {where}, {cname}[{'np.ndarray' if i < 2 else 'Duck'}, '...'] checked on a temporary {d1} array and then on a temporary {d2} array answers {got[i]!r} for the {'first' if i % 2 == 0 else 'second'}; the same check on its own answers {want[i]!r}",
+                            replay=dict(kind="sequence", cat=cname, d1=d1, d2=d2),
+                        )
+                    )
+                    break
+    return viols, n
 
 
 # ------------------------------------------------------------------- judging
@@ -647,6 +707,11 @@ def run(ctx):
                     replay=dict(kind="consistency", recipes=[a[2], b[2]], cat=specs[i]),
                 )
             )
+    seq_n = 0
+    for o in outs:
+        seq_n += o.get("seq_n", 0)
+        viols += [Violation(**v) for v in o.get("seq_viols", [])]
+    stats["evaluations"] += seq_n
     unprod = [u for o in outs for u in o["unproducible"]]
     meta = {k: v for o in outs for k, v in o["meta"].items() if k != "exported"}
     cov = dict(
@@ -657,6 +722,7 @@ def run(ctx):
         samples=samples,
         exhaustive=True,
         carriers=sum(per_backend.values()),
+        sequence_checks_of_temporaries_in_one_context=seq_n,
         carriers_per_backend=dict(sorted(per_backend.items())),
         categories=len(specs),
         categories_builtin=len(exported),
@@ -714,6 +780,10 @@ def replay(rep):
 
         return with_carrier(recipe, fn)
 
+    if rep["kind"] == "sequence":
+        v, n = sequence_part([rep["cat"]])
+        mine = [x for x in v if x["replay"]["d1"] == rep["d1"] and x["replay"]["d2"] == rep["d2"]]
+        return dict(violations=[x["what"] for x in mine], violates=bool(mine))
     if rep["kind"] == "consistency":
         res = [one(r, rep["cat"], False) for r in rep["recipes"]]
         got = [x[0] for x in res]
